@@ -88,7 +88,38 @@ def programs(tier):
             P.append((f"slice_concat!({ty}, &{arr})", [f"const S: &[&[{ty}]] = &{arr};", f"const K: &[{ty}] = &konst::slice::slice_concat!({ty}, S);", f"const K2: &[{ty}] = &konst::slice::slice_concat!({ty}, &{arr});",
                       f"out.push((\"slice_concat!({ty}, const) {arr}\".to_string(), format!(\"{{:?}}\", K), format!(\"{{:?}}\", S.concat())));",
                       f"out.push((\"slice_concat!({ty}, literal) {arr}\".to_string(), format!(\"{{:?}}\", K2), format!(\"{{:?}}\", S.concat())));"]))
+    # ---- item hygiene: `const` items declared inside a macro body are not hygienic, so a user constant of the same name
+    # that appears in an argument expression must still mean the user's constant.  The names are read from the macros'
+    # own sources (plus a few generic ones), one program per name and macro.
+    for nm in internal_item_names():
+        P.append((f"str_concat! with a user constant named {nm} in the argument", [f"const {nm}: &str = \"ñb\";", f"const K_: &str = konst::string::str_concat!(&[{nm}, \"c\", {nm}]);",
+                  f"out.push((\"str_concat!(&[{nm}, 'c', {nm}]) with const {nm}: &str = 'ñb'\".to_string(), K_.to_string(), [{nm}, \"c\", {nm}].concat()));"]))
+        P.append((f"str_join! with user constants named {nm} as separator and piece", [f"const {nm}: &str = \",\";", f"const K_: &str = konst::string::str_join!({nm}, &[\"a\", {nm}, \"b\"]);",
+                  f"out.push((\"str_join!({nm}, &['a', {nm}, 'b']) with const {nm}: &str = ','\".to_string(), K_.to_string(), [\"a\", {nm}, \"b\"].join({nm})));"]))
+        P.append((f"string::from_iter! with a user constant named {nm}", [f"const {nm}: [&str; 2] = [\"x\", \"€\"];", f"const K_: &str = konst::string::from_iter!(&{nm}, rev());",
+                  f"out.push((\"from_iter!(&{nm}, rev()) with const {nm} = ['x', '€']\".to_string(), K_.to_string(), {nm}.iter().rev().copied().collect::<String>()));"]))
+        P.append((f"slice_concat! with user constants named {nm} (a piece and an array length)", [f"const {nm}: usize = 2;", f"const K_: &[u8] = &konst::slice::slice_concat!(u8, &[&[7u8; {nm}], &[1], &[{nm} as u8]]);",
+                  f"out.push((\"slice_concat!(u8, &[&[7; {nm}], &[1], &[{nm} as u8]]) with const {nm}: usize = 2\".to_string(), format!(\"{{:?}}\", K_), format!(\"{{:?}}\", [&[7u8; {nm}][..], &[1], &[{nm} as u8]].concat())));"]))
     return P
+
+
+def internal_item_names():
+    """names of `const` items declared inside the bodies of the concatenation macros (read from /repo), plus generic ones"""
+    import re, os
+    names = {"LEN", "CONC", "STR", "ARR", "N", "OUT", "S", "ARGS", "SLICE", "RET"}
+    for f in ["/repo/konst_kernel/src/string/string_for_konst.rs", "/repo/konst_kernel/src/slice/slice_for_konst.rs", "/repo/konst/src/string/concatenation.rs", "/repo/konst/src/string.rs", "/repo/konst/src/slice.rs"]:
+        if os.path.exists(f):
+            in_macro = False
+            for line in open(f, errors="replace"):
+                if line.startswith("macro_rules!"):
+                    in_macro = True
+                elif line.startswith("}"):
+                    in_macro = False
+                if in_macro and not line.lstrip().startswith("//"):
+                    names.update(re.findall(r"\bconst\s+([A-Za-z_][A-Za-z0-9_]*)\s*:", line))
+    # names that were obfuscated on purpose (`__ARGS_81608BFNA5`) are the library's way of staying clear of user names:
+    # a user constant of exactly that name is not a realistic program and is not demanded
+    return sorted(n for n in names if n != "_" and not n.startswith("__"))
 
 
 def run(tier, seed, drv):
